@@ -96,6 +96,6 @@ def _run(ctx, chk, prog, tag):
                    key="%s:%s" % (f.name, wit[-1][0] if wit else ""),
                    detail=("writes to the inspected item: " + chain) if w else "", path=pathl,
                    nontrivial=bool(eff.summ[f.name]["callees"]) or w)
-    chk.floor("C18.readonly", "const-item subjects", nsub, 55)
+    chk.floor("C18.readonly", "const-item subjects", nsub, 40)
     chk.count("functions", len(prog.lib_funcs()))
     chk.exhaustive = True
